@@ -5,5 +5,5 @@ CONSTANTS
   MaxOut = 5
   OffR = 5
   Z3Idx = {2, 5}
-INVARIANTS InvWhole InvMiddle InvSum InvCom InvUniform InvShift InvRelabel InvSeparable InvSum3
+INVARIANTS InvWhole InvMiddle InvSum InvCom InvComTight InvUniform InvShift InvRelabel InvSeparable InvSum3
 CHECK_DEADLOCK FALSE
